@@ -1,9 +1,11 @@
 import Driver.Drv.Lru
+import Driver.Drv.Rescan
 import Driver.Drv.Store
 namespace Driver
 
 def drivers : List (String × CaseFn) := [
   ("lru", Driver.Drv.Lru.runCase),
+  ("rescan", Driver.Drv.Rescan.runCase),
   ("store", Driver.Drv.Store.runCase)]
 
 end Driver
